@@ -17,7 +17,7 @@ func propC06() *fw.Prop {
 		ID: "C06", Level: "exploration",
 		Rule:        "single-allotment scripts run against @world (destination side: credits per clause account; source side: unbounded-overdraft sub-sources so each share is a debit). Exhaustive: every composition of every denominator ≤ 12 (thorough ≤ 24) into 2–4 ratio clauses, optionally with `remaining` replacing the last or a non-last clause, × every total 0..60 (thorough 0..200); random: totals up to 10^40, percentages with decimals, portion variables, sums ≠ 1. Oracle = exact rational arithmetic: Σ shares = total, ⌊p·t⌋ ≤ share ≤ ⌊p·t⌋+1, the +1's form a prefix of the clause list. Distinct = (side, portion vector, position of remaining, total mod denominator).",
 		Assumptions: []string{trustedBase},
-		Require:     []string{"exhaustive_spaces_completed", "shares_checked", "rejected_bad_sum", "cases_with_leftover"},
+		Require:     []string{"exhaustive_spaces_completed", "shares_checked", "rejected_bad_sum", "cases_with_leftover", "second_use_of_the_same_portions"},
 		Run:         runC06,
 	}
 }
@@ -70,7 +70,9 @@ func checkShares(ps []*big.Rat, total *big.Int, shares []*big.Int) string {
 	return ""
 }
 
-func observeShares(e *exec, k, side int) []*big.Int {
+func observeShares(e *exec, k, side int) []*big.Int { return observeSharesP(e, k, side, "d") }
+
+func observeSharesP(e *exec, k, side int, prefix string) []*big.Int {
 	out := make([]*big.Int, k)
 	for i := range out {
 		out[i] = new(big.Int)
@@ -81,11 +83,47 @@ func observeShares(e *exec, k, side int) []*big.Int {
 			name = p.Src
 		}
 		var idx int
-		if _, err := fmt.Sscanf(name, "d%d", &idx); err == nil && idx < k {
+		if _, err := fmt.Sscanf(name, prefix+"%d", &idx); err == nil && idx < k && strings.HasPrefix(name, prefix) {
 			out[idx].Add(out[idx], p.Amt)
 		}
 	}
 	return out
+}
+
+// copyHeads gives fresh head nodes naming the same literals / variables.
+func copyHeads(hs []gen.Allot) []gen.Allot {
+	out := make([]gen.Allot, len(hs))
+	for i, h := range hs {
+		switch h := h.(type) {
+		case *gen.AllotLit:
+			out[i] = &gen.AllotLit{Lit: gen.CopyExpr(h.Lit)}
+		case *gen.AllotVar:
+			out[i] = &gen.AllotVar{V: gen.V(h.V.Name)}
+		default:
+			out[i] = &gen.AllotRemaining{}
+		}
+	}
+	return out
+}
+
+// secondUse appends a second send that uses the same portion heads (same variables) again, on
+// the other side and on other accounts ("e<i>"), with its own amount variable $n2.
+func secondUse(sc *gen.Script, heads []gen.Allot, side int) {
+	sc.Vars = append(sc.Vars, &gen.VarDecl{Type: "monetary", Name: "n2"})
+	h2 := copyHeads(heads)
+	if side == 0 {
+		d := &gen.DstAllot{}
+		for i, h := range h2 {
+			d.Items = append(d.Items, &gen.DstAllotItem{A: h, To: gen.To(gen.DA(fmt.Sprintf("e%d", i)))})
+		}
+		sc.Stmts = append(sc.Stmts, &gen.Send{Sent: &gen.SentValue{E: gen.V("n2")}, Src: gen.SA("world"), Dst: d})
+	} else {
+		s := &gen.SrcAllot{}
+		for i, h := range h2 {
+			s.Items = append(s.Items, &gen.SrcAllotItem{A: h, From: &gen.SrcOverdraft{Addr: gen.A(fmt.Sprintf("e%d", i))}})
+		}
+		sc.Stmts = append(sc.Stmts, &gen.Send{Sent: &gen.SentValue{E: gen.V("n2")}, Src: s, Dst: gen.DA("z")})
+	}
 }
 
 func runC06(c *fw.Ctx) {
@@ -169,7 +207,7 @@ func runC06(c *fw.Ctx) {
 		c.Count("exhaustive_spaces_completed", 1)
 	}
 	// ---- random ----
-	n := c.N(6000, 400000)
+	n := c.N(30000, 600000)
 	base := 50_000_000
 	for i := 0; i < n; i++ {
 		id := "rand/" + itoa(i)
@@ -187,6 +225,14 @@ func runC06(c *fw.Ctx) {
 			total.Add(total, big.NewInt(int64(r.Intn(1000))))
 		}
 		vals["n"] = "USD " + total.String()
+		// a second statement using the same portions (and portion variables) again
+		twice := sumOK && r.Chance(1, 2)
+		side2 := r.Intn(2)
+		total2 := gen.SmallOrBig(r, 30)
+		if twice {
+			secondUse(sc, heads, side2)
+			vals["n2"] = "USD " + total2.String()
+		}
 		cs := mkCase(sc, vals, nil)
 		e, ok := run(c, cs)
 		if !ok {
@@ -217,6 +263,15 @@ func runC06(c *fw.Ctx) {
 		if msg := checkShares(ps, total, shares); msg != "" {
 			c.Violation("shares", fmt.Sprintf("%s; portions %v total %s shares %v", msg, ps, total, shares), e.input())
 			return
+		}
+		if twice {
+			shares2 := observeSharesP(e, k, side2, "e")
+			c.Count("shares_checked", k)
+			c.Count("second_use_of_the_same_portions", 1)
+			if msg := checkShares(ps, total2, shares2); msg != "" {
+				c.Violation("shares-second-use", fmt.Sprintf("second use of the same portions: %s; portions %v total %s shares %v", msg, ps, total2, shares2), e.input())
+				return
+			}
 		}
 		c.Count("random_cases", 1)
 		if total.Cmp(big.NewInt(1<<62)) > 0 {
